@@ -60,6 +60,24 @@ def write_replay(path, header_lines, case=None, comp=None, model_lines=None, imp
                 f.write('#   ' + pretty(l) + '\n')
 
 
+KNOWN_SEEN = {}
+
+
+def split_known(pid, hits, case):
+    """-> hits that are not listed as open known findings (the listed ones are printed once)"""
+    out = []
+    for h in hits:
+        kf = core.known_match(pid, h, core.case_text(case))
+        if kf:
+            key = kf.get('monitor', '') + '|' + kf.get('match', '')
+            if key not in KNOWN_SEEN:
+                print('KNOWN-FINDING: property=%s %s' % (pid, kf.get('what', h)))
+            KNOWN_SEEN[key] = KNOWN_SEEN.get(key, 0) + 1
+        else:
+            out.append(h)
+    return out
+
+
 def run_monitors(comp, spec, case, impl_lines):
     hits = []
     for name in spec.get('monitors', []):
@@ -162,7 +180,7 @@ def main():
         iexe, ilog = core.build_impl_driver(comp, sanitize)
         if iexe is None:
             problems.append('correspondence(%s): the driver no longer compiles against /repo:\n%s' % (comp.NAME, tail(ilog, 25)))
-            continue
+            continue  # the search phase retries with -DVS_NO_PEEK
         cases = corpus_cases(pid, comp.NAME)
         for i, c in enumerate(cases):
             c['id'] = i
@@ -199,13 +217,10 @@ def main():
             mh = run_monitors(comp, spec, c, il)
             if v == 3 and not mh and spec.get('crash_is_violation', True):
                 mh = ['%s.crash: the implementation crashed (sanitizer report / signal)' % comp.NAME]
+            mh = split_known(pid, mh, c)
             if mh:
                 stats['monitor_hits'] += 1
                 if saved < 3:
-                    kf = core.known_match(pid, mh[0], core.case_text(c))
-                    if kf:
-                        print('KNOWN-FINDING: property=%s %s' % (pid, kf.get('what', mh[0])))
-                        continue
                     small = shrink_monitor(comp, spec, iexe, c, mh[0])
                     path = replay_path(pid, seed, saved)
                     sil = core.canon(run_single(iexe, small))
@@ -292,6 +307,7 @@ def main():
             'sched_len_hist': stats['sched_len_hist'],
             'correspondence_differences': stats['diffs'], 'monitor_hits': stats['monitor_hits'],
             'monitors': spec.get('monitors', []),
+            'known_finding_hits': dict(KNOWN_SEEN),
             'exhaustive': bool(stats.get('enum')) and all(e['exhaustive_for_bound'] for e in stats['enum'].values()),
             'exhaustive_subspace': stats.get('enum', {}),
             'coqchk': coqchk_note,
@@ -366,6 +382,7 @@ def enumerate_small(comp, spec, rng, mexe, iexe, shards):
         mh = run_monitors(comp, spec, c, il)
         if core.verdict_of(il) == 3 and not mh:
             mh = ['%s.crash: the implementation crashed' % comp.NAME]
+        mh = split_known(spec['id'], mh, c)
         if mh:
             hits.append((c, mh, il))
     return {'diffs': diffs, 'hits': hits,
@@ -424,17 +441,24 @@ def search_failing_input(pid, spec, comps, seed, tier):
         iexe, ilog = core.build_impl_driver(comp, sanitize)
         if iexe is None:
             iexe, ilog = core.build_impl_driver(comp, False)
+        nopeek = False
+        if iexe is None:
+            iexe, ilog = core.build_impl_driver(comp, False, nopeek=True)
+            nopeek = True
         if iexe is None:
             continue
         for r in range(rounds):
             rng = Rng(seed * 1000003 + r + 17)
             cases = gen_cases(comp, spec, rng, per, 'search', 0)
+            for c in cases:
+                c['_nopeek'] = nopeek
             iout, _ = core.run_sharded(iexe, cases, comp.NAME + '_s', core.NCPU)
             for c in cases:
                 il = core.canon(iout.get(c['id'], []))
                 mh = run_monitors(comp, spec, c, il)
                 if core.verdict_of(il) == 3 and not mh:
                     mh = ['%s.crash: the implementation crashed (sanitizer report / signal)' % comp.NAME]
+                mh = split_known(pid, mh, c)
                 if mh:
                     small = shrink_monitor(comp, spec, iexe, c, mh[0])
                     return comp, small, '; '.join(mh), core.canon(run_single(iexe, small))
